@@ -317,6 +317,7 @@ fn random_history(rng: &mut Rng, s: &[u8]) -> String {
 }
 
 fn gen_c05(tier: &Tier, rng: &mut Rng, w: usize, nw: usize, out: &mut Vec<Case>) {
+    alloc_failure_cases(rng, if tier.thorough { 20_000 } else { 3_000 } / nw, out);
     let nrand = if tier.thorough { 600_000 } else { 90_000 };
     for s in stream_family(tier, rng, w, nw, nrand) {
         let cap = match rng.below(4) {
@@ -443,6 +444,7 @@ fn gen_c15(tier: &Tier, rng: &mut Rng, w: usize, nw: usize, out: &mut Vec<Case>)
 }
 
 fn gen_c17(tier: &Tier, rng: &mut Rng, w: usize, nw: usize, out: &mut Vec<Case>) {
+    alloc_failure_cases(rng, if tier.thorough { 20_000 } else { 3_000 } / nw, out);
     let nrand = if tier.thorough { 500_000 } else { 75_000 };
     for s in stream_family(tier, rng, w, nw, nrand) {
         let cap = if rng.chance(1, 3) { Some(*rng.pick(&[0usize, 2, 4, 8])) } else { None };
